@@ -415,7 +415,9 @@ class Sym:
             return [(st, 'break')]
         if k == 'continue':
             return [(st, 'continue')]
-        if k in ('do', 'switch', 'try', 'otherstmt', 'case', 'default'):
+        if k == 'switch':
+            return self.exec_switch(s, st)
+        if k in ('do', 'try', 'otherstmt', 'case', 'default'):
             raise Unsupported(f'statement {k} at line {s.get("ln")}')
         # expression statement
         return [(s1, None) for s1, _v in self.ev(s, st)]
@@ -448,6 +450,80 @@ class Sym:
                             nxt.append(s1)
                     cur = nxt
             out.extend((s1, sig) for s1 in cur)
+        return out
+
+    def exec_switch(self, s, st):
+        """switch on a value with constant case labels: one path per label (the selector equals it) and one for `none of
+        them` (default, or past the switch); statements are executed from the label on, falling through until break."""
+        body = s.get('b') or {}
+        items = body.get('b', []) if body.get('k') == 'compound' else [body]
+        flat = []           # (labels at this position, statement or None)
+        for it in items:
+            labels = []
+            while isinstance(it, dict) and it.get('k') in ('case', 'default'):
+                labels.append(('default', None) if it['k'] == 'default' else ('case', it.get('v')))
+                it = it.get('b')
+            flat.append((labels, it))
+        if any(isinstance(x, dict) and x.get('k') in ('case', 'default') for _l, st_ in flat for x in ([] if st_ is None else _nested_labels(st_))):
+            raise Unsupported(f'switch with case labels inside nested statements at line {s.get("ln")}')
+        pre = [st]
+        if s.get('init') is not None:
+            pre = [s1 for s1, _ in self.exec(s['init'], st)]
+        out = []
+        for s0 in pre:
+            for s1, v in self.ev(s['c'], s0):
+                if s1.throw is not None:
+                    out.append((s1, None))
+                    continue
+                cases = []
+                for pos, (labels, _stmt) in enumerate(flat):
+                    for kind, ve in labels:
+                        if kind == 'case':
+                            cvs = self.ev(ve, s1.fork())
+                            if len(cvs) != 1 or cvs[0][1][0] != 'k':
+                                raise Unsupported(f'case label that is not a constant at line {s.get("ln")}')
+                            cases.append((cvs[0][1], pos))
+                dpos = [pos for pos, (labels, _stmt) in enumerate(flat) if any(k2 == 'default' for k2, _ in labels)]
+                entries = []
+                decided = False
+                for cv, pos in cases:
+                    c = self.simp(('op', '==', v, cv))
+                    t = self.truth(c, s1)
+                    if t is True:
+                        entries = [(s1, pos)]
+                        decided = True
+                        break
+                    if t is False:
+                        continue
+                    s2 = s1.fork()
+                    s2.conds.append((c, True))
+                    entries.append((s2, pos))
+                if not decided:
+                    s3 = s1.fork()
+                    for cv, _pos in cases:
+                        c = self.simp(('op', '==', v, cv))
+                        if self.truth(c, s3) is None:
+                            s3.conds.append((c, False))
+                    entries.append((s3, dpos[0] if dpos else None))
+                for se, pos in entries:
+                    if pos is None:
+                        out.append((se, None))
+                        continue
+                    states = [se]
+                    for _labels, stmt in flat[pos:]:
+                        nxt = []
+                        for sx in states:
+                            for sy, sig in (self.exec(stmt, sx) if stmt is not None else [(sx, None)]):
+                                if sy.throw is not None or (isinstance(sig, tuple) and sig[0] == 'return') or sig == 'continue':
+                                    out.append((sy, sig))
+                                elif sig == 'break':
+                                    out.append((sy, None))
+                                else:
+                                    nxt.append(sy)
+                        states = nxt
+                        if not states:
+                            break
+                    out.extend((sx, None) for sx in states)
         return out
 
     def exec_while(self, s, st, bound=12):
@@ -1617,6 +1693,25 @@ class Sym:
             st.contents.setdefault(recv, []).append(o)
             return pre + [(st, ('addr', o))]
         raise Unsupported(f'make_node initialiser form {init.get("k")}')
+
+
+def _nested_labels(stmt):
+    """case/default nodes strictly inside a statement (not at its top)"""
+    found = []
+
+    def visit(n, top):
+        if isinstance(n, dict):
+            if n.get('k') in ('case', 'default') and not top:
+                found.append(n)
+            if n.get('k') == 'switch' and not top:
+                return
+            for v in n.values():
+                visit(v, False)
+        elif isinstance(n, list):
+            for v in n:
+                visit(v, False)
+    visit(stmt, True)
+    return found
 
 
 def _variant_get_info(fid):
